@@ -22,7 +22,12 @@ def bracketItems : Nat → List Char → List SCls → Bool → Option (List SCl
   | 0, _, _, _ => none
   | _, [], _, _ => none
   | fuel+1, ']' :: rest, acc, first =>
-    if first then bracketItems fuel rest (acc ++ [.chr ']']) false
+    if first then
+      -- a first `]` is a literal member; as a range START (`[]-x]`) it is outside the strict grammar
+      (match rest with
+       | '-' :: ']' :: _ => bracketItems fuel rest (acc ++ [.chr ']']) false
+       | '-' :: _ => none
+       | _ => bracketItems fuel rest (acc ++ [.chr ']']) false)
     else if acc.isEmpty then none else some (acc, rest)
   | fuel+1, '[' :: rest, acc, _ =>
     match matchPosix rest with
